@@ -316,10 +316,11 @@ Definition forward_insert (gp : path) (s : side) (ins_len : nat) (c : cursor) : 
     - [wrap_fixed]: [_forward_wrap.fwd_block]'s third case anchors at [rng.start] (repaired) instead of
       [blk_rng.start] (as found);
     - [move_asserts]: the block branch of [_forward_move] checks its end points with [assert]
-      (AssertionError, as found) instead of raising InvalidCursorError (proposed repair). *)
+      (AssertionError, as found) instead of raising InvalidCursorError (repaired). *)
 Record variant := { wrap_fixed : bool; move_asserts : bool }.
 Definition code_as_found : variant := {| wrap_fixed := false; move_asserts := true |}.
-Definition code_now : variant := {| wrap_fixed := true; move_asserts := true |}.
+Definition code_with_asserts : variant := {| wrap_fixed := true; move_asserts := true |}.
+Definition code_now : variant := {| wrap_fixed := true; move_asserts := false |}.
 
 (** [Block._forward_wrap(p, wrap_attr)]  (376-406).
     [fixed = false]: the code as it stands — the third case returns [(attr, blk_rng.start)];
